@@ -102,6 +102,20 @@ add("C06", "E1",
     "(pre/post-indexed store whose base is overwritten before the load) is a listed known finding.",
     "DESIGN.md §4 C06")
 
+add("C07", "E1",
+    "exhaustive pattern x operand-kind matrix and complete sweep of shipped entries vs. reference matcher",
+    "(a) synthetic models: every (entry operand pattern, instruction operand) pair for arity 1 and "
+    "every pair of pairs for arity 2 over all operand kinds and wildcards of both ISAs through "
+    "MachineModel.get_instruction; duplicates, shadowing, alias lists, operand counts, mnemonic case "
+    "and AT&T / '.cond' suffix fall-backs through ArchSemantics. (b) every entry of shipped model "
+    "files and both ISA databases (quick: zen1, n1, tx2, isa/*; thorough: all): the instruction "
+    "synthesised from the entry's own pattern must resolve to the first entry in file order that the "
+    "reference accepts, and ~8 near-miss instructions per operand must not resolve to that entry.",
+    "Trusted: mc/ref/match.py (kinds, match relation, synthesiser). Kinds the statement does not "
+    "define (mask/segment registers, shapeless vector registers, typo patterns) are excluded and "
+    "counted.",
+    "DESIGN.md §4 C07")
+
 NOT_YET = {}
 
 def main():
